@@ -98,7 +98,10 @@ def run(ctx):
     own = {(f_.id, c_.bb) for (f_, c_) in srcs if _raw_key(f_, c_) in nd_tbl}
     for (f_, c_) in srcs:
         if (f_.id, c_.bb) in own:
-            units.append((_re.sub(r"(::\{closure#\d+\})+$", "", f_.name), f_, c_, (f_.id, c_.bb)))
+            # flows are followed in the body with its helpers read in place (the host's own blocks keep their numbers)
+            v_ = F.inlined(f_, light=True)
+            cc_ = [x for x in v_.calls() if x.bb == c_.bb and (x.target_path or "") == (c_.target_path or "")]
+            units.append((_re.sub(r"(::\{closure#\d+\})+$", "", f_.name), v_ if cc_ else f_, cc_[0] if cc_ else c_, (f_.id, c_.bb)))
     covered |= own
     for f in F.body_fns():
         rt = root_of(f)
